@@ -61,7 +61,7 @@ def _case(draw):
         'two_d': two_d, 'spec': spec, 'spec2': spec2, 'err': err,
         'perm_n': draw(st.permutations(list(range(n)))),
         'perm_t': draw(st.permutations(list(range(nt)))),
-        'ab': [draw(fl(-5, 5)), draw(fl(-5, 5))], 'const': draw(fl(-1e6, 1e6)),
+        'ab': [draw(fl(-5, 5)), draw(fl(-5, 5))], 'regrid': draw(fl(0.3, 3.0)), 'const': draw(fl(-1e6, 1e6)),
     }
 
 
@@ -296,6 +296,24 @@ def check(case):
             if not close(np.asarray(rm[1])[judged], r1[judged], rtol=1e-12, atol=atol) or \
                not np.array_equal(np.asarray(rm[0]), stc):
                 out.fail('flux-bin_model', 'bin_model differs from bindown')
+        # the same binner instance re-used on a different native grid of the same
+        # length (a binner is applied to many spectra during a run): no state may
+        # carry over from the previous call
+        out.applies('flux-reuse')
+        k = case.get('regrid', 1.37)
+        wn2 = wn[0] * (1 + 0.01 * k) + (wn - wn[0]) * k
+        w2 = w * k if pass_w else midpoint_widths(wn2)[1]
+        lo2, hi2 = wn2 - w2 / 2, wn2 + w2 / 2
+        r5 = cut(out, 'flux-bindown', fb.bindown, wn2[pn].copy(), f1[pn].copy(), grid_width=(w2[pn].copy() if pass_w else None))
+        g5 = np.asarray(r5[1], dtype=float)
+        for i in range(nt):
+            lo, hi = stc[i] - stw[i] / 2, stc[i] + stw[i] / 2
+            val, _, tot, idx, _ = overlap_mean(lo2, hi2, f1, lo, hi)
+            if tot <= 1e-9 * (hi - lo):
+                continue
+            if not close(g5[i], val, rtol=1e-10, atol=atol):
+                out.fail('flux-reuse@%s' % ('widths' if pass_w else 'nowidths'),
+                         'second native grid: bin %d got %r want %r' % (i, g5[i], val))
     except CutError:
         pass
 
